@@ -100,6 +100,10 @@ def check_fold(chk, rule, where, kf, what, *, kind, term=None, sense=None, init_
         return False
     found = kf.text()
     if kf.kind in ("OTHER", "LAST", "UNCHANGED", None) or (kf.kind == "ARGSET" and kf.of is None):
+        why = _broken_fold(kf, kind)
+        if why:
+            chk.violation(rule, where, "%s: %s" % (what, why), expected=expected, found=found, construct="%s %s" % (where.split(" ", 1)[-1], what))
+            return False
         chk.undecided(rule, where, "%s: loop not recognised as a fold: %s" % (what, found))
         return False
     probs = []
@@ -164,6 +168,35 @@ def check_fold(chk, rule, where, kf, what, *, kind, term=None, sense=None, init_
         return False
     chk.ok(rule, where, "%s = %s" % (what, found), expected=expected)
     return True
+
+
+def _broken_fold(kf, kind):
+    """Recognisable ways in which a selection loop is *not* the specified fold (as opposed to merely written differently)."""
+    u = getattr(kf, "term", None)
+    if kind == "EXT" and kf.kind == "UNCHANGED":
+        return "the accumulator is never updated inside the loop: the result is its start value, whatever the successors are"
+    if not isinstance(u, tuple) or not u:
+        return None
+    if kind == "ARGSET" and u[0] == "ite":
+        c1, a, rest = u[1], u[2], u[3]
+        def is_acc(x):
+            return isinstance(x, tuple) and x and x[0] == "acc"
+        single = a[0] == "list" and len(a[1]) == 1
+        # reset on `key < CONSTANT`: the running optimum is compared but never updated
+        if single and c1[0] == "cmp" and c1[1] in ("<", "<=") and (is_const(c1[2]) or is_const(c1[3])) and not mentions(c1, is_acc):
+            return ("the list is reset whenever the key is better than the constant `%s`: the running optimum is compared but never updated, so later, worse "
+                    "successors replace the list" % show(c1[2] if is_const(c1[2]) else c1[3]))
+        if single and rest[0] == "ite" and is_acc(rest[3]) and rest[2][0] == "cat" and is_acc(rest[2][1]):
+            t = rest[1]
+            if t[0] == "cmp" and t[1] == "!=":
+                return "an action is appended when its key DIFFERS from the running optimum (`%s`): the tie test is negated" % show(t)
+        # the 'strictly better' branch leaves the list as it is: ite(better, acc, ite(tie, acc ++ [l], acc))
+        if is_acc(a) and rest[0] == "ite" and is_acc(rest[3]) and rest[2][0] == "cat" and is_acc(rest[2][1]) and c1[0] == "cmp" and c1[1] in ("<", "<=") and mentions(c1, is_acc):
+            return "when a strictly better key is found the list is left as it is (not reset to the new action): actions of worse successors stay listed and the better one is missing"
+        # no reset branch at all: ite(tie, acc ++ [l], acc)
+        if a[0] == "cat" and is_acc(a[1]) and is_acc(rest) and c1[0] == "cmp" and c1[1] == "==":
+            return "actions are appended on a tie but the list is never reset when a strictly better key is found: actions of worse successors stay listed"
+    return None
 
 
 def spec_text(kind, sense, term, init_ok, source, filt, label):
